@@ -31,6 +31,8 @@ func init() {
 			{ID: "C13.d", Template: "T-PROV", Required: true,
 				Doc: "Each Acquire* of a module provider returns a channel receive, a sync.Pool.Get or the result of a constructor that allocates a fresh object, and keeps no other reference to it; pool constructors are fresh as well. Otherwise a provider hands out an object that is still in use.",
 				Run: ruleC13d},
+			{ID: "C13.f", Template: "T-OWN", Required: true, Run: ruleNoCompressorCopy,
+				Doc: "Compressors and decompressors are only handled through the pointers their constructors return; no value of a compress/* struct type is copied by dereference. Shallow copies are distinct objects for a pool but share the inner flate state: a provider that pre-fills its cache with copies of one reader hands 'different' objects to two requests that then corrupt each other."},
 		},
 	})
 }
